@@ -2089,7 +2089,15 @@ def _rand_program_harness(prop, k, mac):
                 operands = []
                 for kk, bd in enumerate(bodies):
                     var = "c_%d_%d_%d_%d" % (i, s, p, kk)
-                    if name == "map" and s >= 1 and readers and rng.random() < 0.5:
+                    muts = [j for j in range(n) if names[j] == "let mut"]
+                    if name == "map" and s >= 1 and muts and rng.random() < 0.35:
+                        # a capture that REASSIGNS a `let mut` name (also of a branch that has finished)
+                        j = rng.choice(muts)
+                        blk = "{ ev(code(K_CAP, %d, %d, %d)); n%d = n%d.map(|v: u8| v.wrapping_add(%d)); |x: u8| { ev(code(K_CALL, %d, %d, %d)); x.wrapping_add(1) } }" % (i, s, 2 * p + kk, j, j, K(i, s), i, s, p)
+                        refblk = blk.replace("n%d = n%d.map" % (j, j), "v%d = v%d.map" % (j, j))
+                        operands.append((var, blk, refblk))
+                        nev += 1
+                    elif name == "map" and s >= 1 and readers and rng.random() < 0.5:
                         j = rng.choice(readers)
                         blk = "{ ev(code(K_CAP, %d, %d, %d)); let snap: u8 = n%d.clone().unwrap_or(77); move |x: u8| { ev(code(K_CALL, %d, %d, %d)); x.wrapping_add(snap) } }" % (i, s, 2 * p + kk, j, i, s, p)
                         refblk = blk.replace("n%d.clone()" % j, "v%d.clone()" % j)
